@@ -188,6 +188,8 @@ def gen_scenario(rng, prof):
             cbs = [l for l in cbs if l.startswith("cb local")]
         lines += cbs[: len(cbs)]
         lines.append(f"run {rng.choice(prof['strategies'])} {rng.choice(prof['caches'])} {pr}")
+    # ExecutionMode::Default instead of Debug for some runs: no status counters, everything else must be the same
+    lines = [l + " xmode=default" if l.startswith(("run ", "runfrom ")) and rng.random() < 0.2 else l for l in lines]
     return lines
 
 
